@@ -4,23 +4,27 @@
   of the per-block iteration limit (no bounds).  Clauses the current code violates are kept in full
   in a comment, with `…_partial` (true under the stated extra hypothesis) and `…_counterexample`.
 
-  Clauses of the property text and the theorems that carry them
+  Clauses of the property text and the theorems that carry them (model = the code with fixes D1, D2;
+  D3 — activation in the middle of an epoch — is NOT repaired: an existing test pins it, see fixes/fix_d3.status)
     gauge never pays more than deposited ........ asset_gauge_bounded, rollapp_gauge_bounded, gauge_bounded
-    stream never pays more than its total ....... FALSE as written: stream_epoch_bounded_partial /
-                                                  stream_epoch_bounded_counterexample, stream_bounded_counterexample
-    module accounts hold the undistributed rest . module_solvent_incentives (true); streamer: FALSE as written:
-                                                  module_solvent_streamer_partial / module_solvent_streamer_counterexample
+    stream never pays more than its total ....... stream_epoch_bounded (per epoch), stream_bounded (all admissible
+                                                  histories; `Admissible` excludes governance re-targeting, see
+                                                  stream_bounded_retarget_counterexample)
+    module accounts hold the undistributed rest . module_solvent_incentives, module_solvent_streamer
     rewards reach only qualifying owners ........ recipients_legit, asset_rewards_proportional
-    independence from the iteration limit ....... paging_independent, paging_exactly_once, paging_progress,
-                                                  paging_effect (true for an id-sorted stream list);
-                                                  FALSE of the code, whose list is not id-sorted and whose
-                                                  streams may join mid-epoch: paging_unsorted_counterexample,
-                                                  paging_revisit_counterexample, paging_state_counterexample,
-                                                  paging_revisit_state_counterexample, paging_midepoch_counterexample
+    independence from the iteration limit ....... iterator level, every sequence of limits: paging_independent,
+                                                  paging_exactly_once, paging_progress, paging_effect; their
+                                                  hypothesis holds for what `Distribute` iterates
+                                                  (distribute_data_sorted); state level: paging_never_overserves
+                                                  (no EndBlock hands out more than was pending, any limit).
+                                                  FALSE at state level as long as D3 stands: paging_midepoch_counterexample.
+                                                  NOT proved at state level even without D3: that nothing pending
+                                                  is lost over an epoch (two-run equality); regression + differential run.
   Endorsement gauges / sponsored streams are C16's (not in M-Incent).
 -/
 import DymVerif.Lemmas.IncentInv
 import DymVerif.Lemmas.IncentStreams
+import DymVerif.Lemmas.IncentBound
 import DymVerif.Lemmas.IncentPaging
 import DymVerif.Lemmas.IncentShare
 import DymVerif.Lemmas.GenEqIncent
@@ -216,9 +220,9 @@ example : (pagedRun exData 1 Pointer.first [⟨1, unitCb, ()⟩, ⟨2, unitCb, (
 example : iterVisits exData 1 Pointer.first maxU64 unitCb () = [(0, 0), (0, 1), (1, 0), (1, 1)] := by decide
 example : ∀ acc s r, (unitCb acc s r).2 ≤ 1 := fun _ _ _ => Nat.le_refl _
 
-/- FULL STATEMENT (what the property asks of the code): `paging_independent` for the list the code
-   actually iterates, `GetActiveStreams`.  That list is ordered by start time and, within one start
-   time, by a swap-remove list — NOT by id — while `NewStreamIterator` bisects it by id. -/
+/- The hypothesis `SortedData` is necessary: `GetActiveStreams` is ordered by start time and, within one
+   start time, by a swap-remove list — not by id — while `NewStreamIterator` bisects by id.  Since fix D2
+   `Keeper.Distribute` sorts the list by id first (`sortById`; `sorted_sortById`, `nodup_sortById`). -/
 
 /-- two streams created together, a third finishing earlier leaves the reference list as [3, 2]: with
     limit 1 the saved pointer (stream 3, gauge 2) is bisected to "past the end", so the pairs (3,2),
@@ -237,50 +241,74 @@ theorem paging_revisit_counterexample :
     (pagedRun data 1 Pointer.first [⟨3, unitCb, ()⟩, ⟨3, unitCb, ()⟩]).2
       = [(0, 0), (0, 1), (1, 0), (0, 1), (1, 0), (1, 1)] := by decide
 
+/-- **the hypothesis of the paging theorems holds for the list `Keeper.Distribute` iterates** (fix D2): in
+    every state satisfying the invariant the sorted copies of the active streams form `SortedData` -/
+theorem distribute_data_sorted (s : State) (hi : Inv s) :
+    SortedData ((sortById (activeStreams s)).map Stream.view) := by
+  have hin := sortById_good s (activeStreams s) (activeStreams_good s hi.struct)
+  have hgc : GoodCache ⟨sortById (activeStreams s), [], []⟩ := by
+    refine ⟨hin.1, sorted_sortById _, ?_, ?_⟩
+    · intro st hm
+      exact hi.stat.recs st (mem_streamsOf ((mem_sortById _ st).1 hm))
+    · intro st hm
+      have := id_le_length hi.struct.sid (mem_streamsOf ((mem_sortById _ st).1 hm))
+      have := hi.len
+      omega
+  exact hgc.sortedData
+
+/-- **state level, every value of the per-block limit**: one streamer EndBlock never makes a stream hand out
+    more than what was pending for it — `distributed' + pending' ≤ distributed + pending` for every stream in
+    the cache (pending = shares of its records at or after its epoch's stored pointer) -/
+theorem paging_never_overserves (s s' : State) (hi : Inv s) (h : streamerEndBlock s = .ok s') :
+    ∀ st' ∈ s'.streams, ∀ st0 ∈ s.streams, st0.id = st'.id → st0.id ∈ s.active.ids → ∀ i,
+      amt st'.distributed i + pendId (ptrOfEpoch s' st'.epochId) st' i ≤ amt st0.distributed i + pendId (ptrOfEpoch s st0.epochId) st0 i := by
+  intro st' hm' st0 hm0 hid hact i
+  unfold streamerEndBlock at h
+  have hin := activeStreams_good s hi.struct
+  have hst : ∀ st ∈ activeStreams s, StrictInc (st.recs.map (·.gauge)) ∧ st.id < maxU64 := by
+    intro st hm
+    have hmem := mem_streamsOf hm
+    exact ⟨hi.stat.recs st hmem, by have := id_le_length hi.struct.sid hmem; have := hi.len; omega⟩
+  have hc := strDistribute_core s _ _ _ _ s' hi.ginv hi.struct hin hst h
+  have hs' := (strDistribute_streams s _ _ _ _ s' hi.ginv hi.struct hin h).1
+  rcases core_cases s _ _ false s' hc hi.struct hs' st' hm' with ⟨_, a2, _⟩ | ⟨v, st1, b1, _, b3, b4, b5, _⟩
+  · exfalso
+    apply a2
+    rw [activeStreams_ids s hi.struct, ← hid]; exact hact
+  · have hv : st' = v := by rw [b4]; rfl
+    have h10 : st1 = st0 := by
+      have e1 := getS_of_mem hi.struct.sid b1
+      have e0 := getS_of_mem hi.struct.sid hm0
+      have : st1.id = st0.id := by rw [hid, hv, b3]
+      rw [this, e0] at e1
+      exact (Option.some.inj e1).symm
+    rw [hv]
+    unfold ptrOfEpoch
+    rw [← h10]
+    exact b5 i
+
 /-! ## 5. streams -/
 
-/- FULL STATEMENT (false): for every stream and epoch, Σ_records share(epochCoins, w, W) ≤ epochCoins,
-   hence distributed ≤ coins.  The share is `epochCoins.Mul(w.Quo(W)).TruncateInt()` and `w.Quo(W)`
-   is rounded half-even at 18 decimals *before* the multiplication. -/
-
-/-- true whenever the rounded ratios add up to at most 1 -/
-theorem stream_epoch_bounded_partial (epochCoins W : Nat) (ws : List Nat)
-    (h : (ws.map (fun w => ratio w W)).sum ≤ decPN) :
+/-- **for every epoch coins amount, total weight and record weights adding up to at most the total**: the
+    gauges' shares of one epoch never exceed the epoch's coins (share = ⌊epochCoins·w/W⌋, fix D1) -/
+theorem stream_epoch_bounded (epochCoins W : Nat) (ws : List Nat) (h : ws.sum ≤ W) :
     (ws.map (fun w => streamShare epochCoins w W)).sum ≤ epochCoins :=
-  shares_le_of_ratios epochCoins W ws h
+  streamShare_sum_le epochCoins W ws h
 
-/-- the closed form the partial theorem rests on -/
-theorem stream_share_closed_form (a w W : Nat) : streamShare a w W = a * ratio w W / decPN := streamShare_eq a w W
-
-example : (([1, 1] : List Nat).map (fun w => ratio w 2)).sum ≤ decPN := by decide
-example : (([1, 2, 5] : List Nat).map (fun w => streamShare 1000 w 8)).sum = 1000 := by decide
-
-/-- six equal weights: each ratio 1/6 is rounded up to 0.166666666666666667; with 10^18 coins per epoch
-    the six shares add up to 10^18 + 2 -/
-theorem stream_epoch_bounded_counterexample :
-    (([1, 1, 1, 1, 1, 1] : List Nat).map (fun w => streamShare 1000000000000000000 w 6)).sum
-      = 1000000000000000002 := by decide
-
-/-- the suggested repair — `coin.Amount.Mul(record.Weight).Quo(totalWeight)`, i.e. multiply before
-    dividing — satisfies the clause for all weights: Σ ⌊a·w/W⌋ ≤ a whenever Σ w ≤ W -/
-theorem stream_epoch_bounded_after_repair (epochCoins W : Nat) (ws : List Nat) (h : ws.sum ≤ W) :
-    (ws.map (fun w => fixedShare epochCoins w W)).sum ≤ epochCoins :=
-  fixedShare_sum_le epochCoins W ws h
-
-example : (([1, 1, 1, 1, 1, 1] : List Nat).map (fun w => fixedShare 1000000000000000000 w 6)).sum
-    = 999999999999999996 := by decide
-
-/-- the three facts above about the expressions **as regenerated from the Go sources on this run**
-    (`Gen.Incent.streamShare` from `CalculateGaugeRewards`, `Gen.Incent.lockShare` from
-    `calculateAssetGaugeRewards`) -/
-theorem stream_epoch_bounded_partial_regenerated (epochCoins W : Nat) (ws : List Nat)
-    (h : (ws.map (fun w => ratio w W)).sum ≤ decPN) :
+/-- the same about the expression **as regenerated from `CalculateGaugeRewards` on this run** -/
+theorem stream_epoch_bounded_regenerated (epochCoins W : Nat) (ws : List Nat) (h : ws.sum ≤ W) :
     (ws.map (fun w => Gen.Incent.streamShare epochCoins w W)).sum ≤ epochCoins := by
   simp only [GenEq.streamShare_eq]
-  exact shares_le_of_ratios epochCoins W ws h
+  exact streamShare_sum_le epochCoins W ws h
 
-theorem stream_epoch_bounded_counterexample_regenerated :
-    (([1, 1, 1, 1, 1, 1] : List Nat).map (fun w => Gen.Incent.streamShare 1000000000000000000 w 6)).sum
+example : (([1, 1, 1, 1, 1, 1] : List Nat).map (fun w => streamShare 1000000000000000000 w 6)).sum
+    = 999999999999999996 := by decide
+example : (([1, 2, 5] : List Nat).map (fun w => streamShare 1000 w 8)).sum = 1000 := by decide
+
+/-- for the record: the formula before fix D1 (ratio rounded half-even before multiplying) gave
+    10^18 + 2 for six equal weights -/
+theorem stream_share_before_repair_counterexample :
+    (([1, 1, 1, 1, 1, 1] : List Nat).map (fun w => streamShareOld 1000000000000000000 w 6)).sum
       = 1000000000000000002 := by decide
 
 theorem asset_gauge_bounded_regenerated (remain e : Nat) (he : 1 ≤ e) (locks : List Lock) :
@@ -292,49 +320,77 @@ def sixGauges (now : Nat) : List Op := List.replicate 6 (Op.createGauge 0 true 0
 def sixRecs : List Rec := [⟨1, 1⟩, ⟨2, 1⟩, ⟨3, 1⟩, ⟨4, 1⟩, ⟨5, 1⟩, ⟨6, 1⟩]
 def blocks (n dt : Nat) : List Op := (List.replicate n [Op.begin dt, Op.end_]).flatten
 
-/-- a history without over-distribution: two streams over two gauges, limit 500, three hours -/
-def unsortedHistoryPrefix : List Op :=
-  [.begin 1, .end_, .createGauge 0 true 0 1 true [] 101 1, .createGauge 0 true 0 1 true [] 101 1,
-   .locks [⟨1, 0, 100, 3600⟩], .fund streamerAddr [6000],
-   .createStream [3000] [⟨1, 1⟩, ⟨2, 1⟩] 101 1 3, .createStream [3000] [⟨1, 2⟩, ⟨2, 1⟩] 101 1 3] ++ blocks 3 3601
-
-/-- history: six perpetual gauges, one lock, a 6·10^18 stream over two `hour` epochs with equal weights,
-    a second small stream, four hours of blocks -/
+/-- history: six perpetual gauges, one lock, a 6·10^18 stream over two `hour` epochs with equal weights
+    (the history that over-distributed before fix D1), a second small stream, four hours of blocks -/
 def overHistory : List Op :=
   [.begin 1, .end_] ++ sixGauges 101 ++
   [.locks [⟨1, 0, 100, 3600⟩], .fund streamerAddr [6000000000000001000],
    .createStream [6000000000000000000] sixRecs 101 1 2, .createStream [1000] [⟨1, 1⟩] 101 2 3] ++ blocks 4 3601
 
-/-- in its last epoch the stream hands out 12 base units more than it was given … -/
-theorem stream_bounded_counterexample :
-    ((run (init 100 500) overHistory).streams.map (fun s => (s.coins, s.distributed)))
-      = [([6000000000000000000], [6000000000000000012]), ([1000], [])] := by decide
+/-- regression: the stream now hands out exactly its coins and the second stream stays covered -/
+example : (run (init 100 500) overHistory).streams.map (fun s => (s.coins, s.distributed)) =
+    [([6000000000000000000], [6000000000000000000]), ([1000], [])] ∧
+    (run (init 100 500) overHistory).bank.get streamerAddr = [1000] := by decide
 
-/-- … which come out of the module account's other funds: afterwards the streamer holds 988 although
-    its unfinished stream is still owed 1000 -/
-theorem module_solvent_streamer_counterexample :
-    (run (init 100 500) overHistory).bank.get streamerAddr = [988] ∧
-    (upcomingStreams (run (init 100 500) overHistory) ++ activeStreams (run (init 100 500) overHistory)).map
-      (fun s => (s.id, s.coins, s.distributed)) = [(2, [1000], [])] := by decide
-
-/- FULL STATEMENT (false, see the counter-example above): for every history the streamer account holds at
-   least Σ (coins − distributed) over its upcoming and active streams. -/
+/-- regression: the exactly funded stream no longer stops block processing -/
+example : (run (init 100 500) ([.begin 1, .end_] ++ sixGauges 101 ++
+      [.locks [⟨1, 0, 100, 3600⟩], .fund streamerAddr [6000000000000000000],
+       .createStream [6000000000000000000] sixRecs 101 1 2] ++ blocks 4 3601)).halted = false := by decide
 
 /-- what is still owed to the streams in the upcoming and active lists (as `GetModuleToDistributeCoins`
     sums them), per denom -/
 def streamerOwed (s : State) (i : Nat) : Nat := owedL s i
 
-/-- **for every history**: if at its end no stream has handed out more than its coins (then none ever
-    had: `streams_monotone`), the streamer account covers all upcoming and active streams.  The only
-    way to lose solvency is a stream over-distributing — which the share rounding and the unsorted
-    stream list both cause. -/
+/-- the histories the stream clauses quantify over: creation and top-up of gauges and streams, termination,
+    lock and rollapp changes, blocks, epoch boundaries, iteration limits — everything except re-targeting
+    a stream's records by governance (`ReplaceStreamDistributionProposal`), and module accounts do not sign -/
+def Admissible (ops : List Op) : Prop := ∀ op ∈ ops, op.wf ∧ op.wfS ∧ op.noRetarget
+
+/-- **for every admissible history: a stream never hands out more than its total** (fewer than 2^64-1
+    streams created).  Rests on the invariant `distributed + shares still pending in this epoch +
+    (remaining epochs − 1)·(shares of one epoch) ≤ coins` (`Incent.SBst`), kept by the paged distribution
+    for every sequence of limits (`ptrLoop_window`) and re-established at every epoch start. -/
+theorem stream_bounded (now mi : Nat) (ops : List Op) (hw : Admissible ops)
+    (hlen : (run (init now mi) ops).streams.length < maxU64) :
+    ∀ st ∈ (run (init now mi) ops).streams, ∀ i, amt st.distributed i ≤ amt st.coins i :=
+  SB_noOver _ (run_inv ops _ (init_inv now mi) hw hlen).sb
+
+/-- the invariant itself, for use by other properties -/
+theorem stream_invariant (now mi : Nat) (ops : List Op) (hw : Admissible ops)
+    (hlen : (run (init now mi) ops).streams.length < maxU64) : Inv (run (init now mi) ops) :=
+  run_inv ops _ (init_inv now mi) hw hlen
+
+/-- **for every admissible history: the streamer account covers all upcoming and active streams** -/
+theorem module_solvent_streamer (now mi : Nat) (ops : List Op) (hw : Admissible ops)
+    (hlen : (run (init now mi) ops).streams.length < maxU64) (i : Nat) :
+    streamerOwed (run (init now mi) ops) i ≤ amt ((run (init now mi) ops).bank.get streamerAddr) i :=
+  run_solvent ops _ (init_ginv now mi) (init_sstruct now mi) (init_solv now mi)
+    (fun op ho => ⟨(hw op ho).1, (hw op ho).2.1⟩) (stream_bounded now mi ops hw hlen) i
+
+/-- without the admissibility restriction only the conditional form holds -/
 theorem module_solvent_streamer_partial (now mi : Nat) (ops : List Op) (hw : ∀ op ∈ ops, op.wf ∧ op.wfS)
     (hno : ∀ st ∈ (run (init now mi) ops).streams, ∀ i, amt st.distributed i ≤ amt st.coins i) (i : Nat) :
     streamerOwed (run (init now mi) ops) i ≤ amt ((run (init now mi) ops).bank.get streamerAddr) i :=
   run_solvent ops _ (init_ginv now mi) (init_sstruct now mi) (init_solv now mi) hw hno i
 
+/-- re-targeting in the middle of an epoch is excluded for a reason: stream 1 (1000 coins, gauges 1 and 2,
+    1000 for its last epoch) is half served with limit 1, then re-targeted to gauge 2 alone — gauge 2 now
+    receives the whole epoch amount: 1500 of 1000 handed out, and the next EndBlock cannot pay stream 2
+    (block processing stops) -/
+def retargetHistory : List Op :=
+  [.begin 1, .end_, .createGauge 0 true 0 1 true [] 101 1, .createGauge 0 true 0 1 true [] 101 1,
+   .createGauge 0 true 0 1 true [] 101 1, .locks [⟨1, 0, 100, 3600⟩], .fund streamerAddr [2000],
+   .createStream [1000] [⟨1, 1⟩, ⟨2, 1⟩] 101 1 2, .createStream [1000] [⟨3, 1⟩] 101 1 2,
+   .begin 3601, .end_, .begin 3601, .end_, .replaceDistr 1 [⟨2, 1⟩], .begin 10, .end_, .begin 10, .end_]
+
+theorem stream_bounded_retarget_counterexample :
+    (run (init 100 1) retargetHistory).streams.map (fun s => (s.id, s.coins, s.distributed)) = [(1, [1000], [1500]), (2, [1000], [])] ∧
+    (run (init 100 1) retargetHistory).halted = true := by decide
+
+example : Admissible overHistory := by unfold Admissible; decide
+
 /-- **for every history**: streams are never removed, keep their coins and ids, and their distributed
-    coins only grow (so an over-distribution is never undone) -/
+    coins only grow -/
 theorem streams_monotone (now mi : Nat) (ops more : List Op) (hw : ∀ op ∈ ops ++ more, op.wf ∧ op.wfS) :
     StreamsMono (run (init now mi) ops).streams (run (run (init now mi) ops) more).streams := by
   have h1 : ∀ op ∈ ops, op.wf ∧ op.wfS := fun o ho => hw o (List.mem_append_left _ ho)
@@ -349,19 +405,8 @@ theorem module_to_distribute_exact (s : State) (alloc : Coins) (h : moduleToDist
     (hno : NoOver s.streams) (i : Nat) : amt alloc i = streamerOwed s i :=
   moduleToDistribute_amt s alloc h hno i
 
-example : ∀ op ∈ overHistory, op.wf ∧ op.wfS := by decide
-/-- non-vacuity of the hypothesis: a history in which streams pay out without over-distributing -/
-example : (run (init 100 500) (unsortedHistoryPrefix)).streams.all
-    (fun st => Coins.le st.distributed st.coins && !st.distributed.isZero) = true := by decide
 
-/-- with the stream funded exactly, the streamer cannot cover the shares and its EndBlock fails:
-    block processing stops (this is also a C11 matter) -/
-theorem stream_overshoot_halts_counterexample :
-    (run (init 100 500) ([.begin 1, .end_] ++ sixGauges 101 ++
-      [.locks [⟨1, 0, 100, 3600⟩], .fund streamerAddr [6000000000000000000],
-       .createStream [6000000000000000000] sixRecs 101 1 2] ++ blocks 3 3601)).halted = true := by decide
-
-/-! ## 6. the iteration limit changes what streams hand out (state level) -/
+/-! ## 6. histories that depend(ed) on the iteration limit: D2 (repaired, regression), D3 (standing) -/
 
 def unsortedHistory : List Op :=
   [.begin 1, .end_, .createGauge 0 true 0 1 true [] 101 1, .createGauge 0 true 0 1 true [] 101 1,
@@ -370,19 +415,10 @@ def unsortedHistory : List Op :=
    .createStream [3000] [⟨1, 1⟩, ⟨2, 1⟩] 101 1 3, .begin 3601, .end_] ++
   blocks 2 1200 ++ blocks 1 1201 ++ blocks 2 1200 ++ [.begin 1201]
 
-/-- same history, limit 1 versus limit 500, observed at an `hour` boundary: stream 2 has handed out
-    nothing in one run and 1500 in the other (active list [3, 2]) -/
-theorem paging_state_counterexample :
-    (run (init 100 1) unsortedHistory).active.ids = [3, 2] ∧
-    (run (init 100 1) unsortedHistory).streams.map (fun s => (s.id, s.distributed)) = [(1, []), (2, []), (3, [750])] ∧
-    (run (init 100 500) unsortedHistory).streams.map (fun s => (s.id, s.distributed)) = [(1, []), (2, [1500]), (3, [1500])] := by
-  decide
-
-/-- the same history with limit 3: pairs are served twice per epoch; stream 2 and stream 3 end up having
-    handed out 3375 of their 3000 coins -/
-theorem paging_revisit_state_counterexample :
-    (run (init 100 3) (unsortedHistory ++ [.end_] ++ blocks 2 1200 ++ blocks 1 1201 ++ blocks 1 1200)).streams.map
-      (fun s => (s.id, s.coins, s.distributed)) = [(1, [3000], []), (2, [3000], [3375]), (3, [3000], [3375])] := by decide
+/-- the reference list is still [3, 2], but with limits 1, 3 and 500 every stream has handed out the same -/
+example : (run (init 100 1) unsortedHistory).active.ids = [3, 2] ∧
+    ([1, 3, 500].map (fun mi => (run (init 100 mi) unsortedHistory).streams.map (fun s => (s.id, s.distributed)))) =
+      List.replicate 3 [(1, []), (2, [1500]), (3, [1500])] := by decide
 
 def midEpochHistory : List Op :=
   [.begin 1, .end_, .createGauge 0 true 0 1 true [] 101 1, .createGauge 0 true 0 1 true [] 101 1,
@@ -390,18 +426,22 @@ def midEpochHistory : List Op :=
    .createStream [3000] [⟨1, 1⟩, ⟨2, 1⟩, ⟨3, 1⟩] 101 0 3] ++ blocks 2 86401 ++
   [.createStream [3000] [⟨1, 1⟩, ⟨2, 1⟩, ⟨3, 1⟩] 172903 0 2, .begin 3601, .end_, .begin 10, .end_, .begin 10, .end_, .begin 86401]
 
-/-- a `day` stream that becomes active at an `hour` boundary is served in its first (partial) day only
-    when the `day` pointer has not yet reached the end: with limit 1 it hands out 1497, with limit 500
-    nothing — and in both runs the epoch counts as filled -/
+/-- D3 (not repaired): a `day` stream that becomes active at an `hour` boundary is served in its first
+    (partial) day only when the `day` pointer has not yet reached the end: with limit 1 it hands out 1500,
+    with limit 500 nothing — and in both runs the epoch counts as filled.  So the state-level clause
+      ∀ ops mi mi', Admissible ops → (run (init now mi) ops).streams = (run (init now mi') ops).streams
+    is false of the code. -/
 theorem paging_midepoch_counterexample :
-    (run (init 100 1) midEpochHistory).streams.map (fun s => (s.id, s.distributed, s.filled)) = [(1, [1497], 2), (2, [1497], 1)] ∧
-    (run (init 100 500) midEpochHistory).streams.map (fun s => (s.id, s.distributed, s.filled)) = [(1, [1497], 2), (2, [], 1)] := by
-  decide
+    (run (init 100 1) midEpochHistory).streams.map (fun s => (s.id, s.distributed, s.filled)) = [(1, [1500], 2), (2, [1500], 1)] ∧
+    (run (init 100 500) midEpochHistory).streams.map (fun s => (s.id, s.distributed, s.filled)) = [(1, [1500], 2), (2, [], 1)] ∧
+    Admissible midEpochHistory := by
+  refine ⟨by decide, by decide, ?_⟩
+  unfold Admissible; decide
 
 /-- non-vacuity of the state-level theorems: in `overHistory` gauges have been funded and have paid out,
     and a lock owner (account 1) has been paid -/
 example : (run (init 100 500) overHistory).gauges.all (fun g => !g.distributed.isZero && Coins.le g.distributed g.coins) = true := by decide
-example : (run (init 100 500) overHistory).bank.get 1 = [6000000000000000012] := by decide
+example : (run (init 100 500) overHistory).bank.get 1 = [6000000000000000000] := by decide
 example : ∀ op ∈ overHistory, op.wf := by decide
 
 end DymVerif.C15
